@@ -520,6 +520,35 @@ def main(run):
         else:
             run.violation("model and implementation disagree (%s, filter kind %s), oracle holds: %s"
                           % (cmd, k, loc), txt, tag="tie%d" % nbad, no_input=True)
+    # "lists exactly": the proved link-format reader (LinkParse.lf_parse, extracted) applied to what the
+    # implementation printed must give back the registered + selected resources
+    plines, pexp, psrc = [], [], []
+    for i, ln in enumerate(lines):
+        if not ln.startswith("wk "):
+            continue
+        mf = re.search(r" full=(\S+)", oc[i])
+        if not mf:
+            continue
+        cmd, lk, ops, q, wins = parse_case(ln)
+        exp = gen_link.py_canon_dump(ops, q)
+        if exp is None:
+            run.hist("readback", "not-clean")
+            continue
+        plines.append("lfparse " + mf.group(1))
+        pexp.append(exp)
+        psrc.append(ln)
+    pout, _ = par_run(model, plines)
+    nrb = 0
+    for ln, exp, got, src in zip(plines, pexp, pout, psrc):
+        run.hist("readback", "ok" if got == exp else "differs")
+        if got != exp:
+            nrb += 1
+            if nrb <= 2:
+                run.violation("reading the printed listing back does not give the registered resources: got %s, expected %s"
+                              % (got[:120], exp[:120]),
+                              "case: %s\nprinted: %s\nread back: %s\nregistered+selected: %s\n" % (src, ln, got, exp),
+                              tag="readback%d" % nrb)
+    run.cov["readback_cases"] = len(plines)
     run.cov["disagreements"] = nbad
     run.cov["windows_compared"] = nwin
     run.cov["corpus_cases"] = len(corpus)
